@@ -179,6 +179,8 @@ impl<'c> Slice<'c> {
                 };
 
                 record.substitution_matrix = substitution_matrix.clone();
+
+                record.validate_sequence()?;
             }
         }
 
